@@ -270,3 +270,73 @@ func VerifC04Dispatch() {
 	}
 	vReach("end")
 }
+
+// VerifC04History: every sequence of K operations from {register a foreground
+// handler, register a background handler, remove the oldest / newest live
+// handler, dispatch the event spelled in upper / lower / mixed case} on one
+// event name, starting from an empty client: after every dispatch each live
+// handler has run exactly once more and no removed handler has run. (The
+// inductive step above starts from arbitrary *well-formed list* states; this one
+// also covers state the list invariant does not mention, e.g. caches.)
+func VerifC04History() {
+	K := vParam("K", 4)
+	conn := &Conn{cfg: NewConfig("me"), fgHandlers: handlerSet(), intHandlers: handlerSet(), bgHandlers: handlerSet()}
+	name := "ev" + vStr("namebyte", 1)
+	vAssume(name[2] < 0x80 && (name[2]|0x20)-'a' < 26) // a letter, either case
+	upper, lower := vUpStr(name), vLowerStr(name)
+	type reg struct {
+		rem   Remover
+		id    int
+		live  bool
+		count int
+		want  int
+	}
+	var regs []*reg
+	var mu sync.Mutex
+	for step := 0; step < K; step++ {
+		op := vLen("op"+vItoa(step), 0, 7)
+		switch op {
+		case 0, 1, 2, 3: // register foreground / background under the lower- or upper-case spelling
+			r := &reg{id: len(regs), live: true}
+			h := HandlerFunc(func(*Conn, *Line) { mu.Lock(); r.count++; mu.Unlock() })
+			spell := []string{lower, upper}[op%2]
+			if op >= 2 {
+				r.rem = conn.HandleBG(spell, h)
+			} else {
+				r.rem = conn.HandleFunc(spell, h)
+			}
+			regs = append(regs, r)
+		case 4: // remove the oldest live handler
+			for _, r := range regs {
+				if r.live {
+					r.rem.Remove()
+					r.live = false
+					break
+				}
+			}
+		case 5: // remove the newest live handler
+			for i := len(regs) - 1; i >= 0; i-- {
+				if regs[i].live {
+					regs[i].rem.Remove()
+					regs[i].live = false
+					break
+				}
+			}
+		default: // dispatch, spelled in upper case or as registered
+			spell := []string{upper, name}[op%2]
+			for _, r := range regs {
+				if r.live {
+					r.want++
+				}
+			}
+			conn.dispatch(&Line{Cmd: spell, Raw: spell})
+			vRunPending()
+			mu.Lock()
+			for _, r := range regs {
+				vAssert(r.count == r.want, "history:each-live-handler-once-removed-never")
+			}
+			mu.Unlock()
+		}
+	}
+	vReach("end")
+}
